@@ -240,3 +240,18 @@ PROPS["C02"] = dict(
           "words, or >= 1 real word with a grammar word whose left contexts select >= 2 distinct word-initial models; distinct = distinct case text."),
     assumptions=["beam=pbeam=wbeam=0 and maxhmmpf=-1 disable pruning", "utterances <= 120 frames keep scores far from WORST_SCORE"],
 )
+
+PROPS["C18"] = dict(
+    harness="viterbi",
+    wrap=["acmod_score"],
+    level="exploration",
+    technique="property-based testing with range/finiteness predicates over adversarial signal families; every frame handed to the scorer is inspected through --wrap=acmod_score; UBSan signed-overflow and implicit-truncation instrumentation on the scorer files",
+    level_text="Adversarial signals (digital silence, DC at the rails, full-scale squares incl. Nyquist, impulses, 1-LSB and full-scale noise, speech x 0, clipped speech, silence/noise alternation, float32 at and beyond +-1.0) through (a) the front end alone over generated configurations and (b) the decoder (streaming and full_utt, both scorer modes, large-magnitude cmninit strings; thorough tier: 30 s - 3 min utterances of forced alignment): every cepstral value and every dynamic-feature value reaching the scorer is finite, every (active) senone score is within range with the best normalised to 0, segment scores are non-positive and sum to a path score in [WORST_SCORE, 0], and the exported channel-normalisation text is finite and a fixpoint of import/export.",
+    level_note="Trusted: std::isfinite, the sanitizer instrumentation (signed-integer-overflow everywhere, implicit-signed-integer-truncation on ptm_mgau.c/s2_semi_mgau.c/ms_mgau.c/hmm.c). Front-end configurations are kept to those whose FFT resolves every mel filter (a coarser FFT is a separately keyed class).",
+    quick=dict(cases=250, maxlen=300, budget=100),
+    thorough=dict(cases=4000, maxlen=300, budget=1800),
+    rule=("choices decode to family {front end alone: sample rate, frame rate, window, FFT size, filterbank, transform, noise/DC removal, log-spectrum; "
+          "decoder: scorer mode, beams, streaming|full_utt, cmninit} x adversarial signal family x length. Non-trivial = >= 3 front-end frames, or >= 10 frames "
+          "inspected at the scorer; distinct = distinct case text."),
+    assumptions=["dither off"],
+)
